@@ -65,16 +65,25 @@ def inRange (S A : Nat) (e : StepIn) : Bool := e.s < S && e.a < A && e.s1 < S &&
 
 def lookupNext (l : List ((Nat × Nat) × Nat)) (k : Nat × Nat) : Option Nat := (l.find? (fun p => p.1 == k)).map (·.2)
 
-/-- one DoubleQLearning model step from `(qa, qc)` rows, for the coin that reproduces the implementation -/
-def dqPick (γ α : Rat) (S A : Nat) (pa pc : Rows) (e : StepIn) (out outC : Rows) : Rows × Rows × Bool :=
+/-- one DoubleQLearning model step from `(qa, qc)` rows, for the coin that reproduces the implementation.
+    In the `else` branch the library takes the arg-max of the COMPUTED differences `qc - qa`; entries whose exact
+    differences are within 1e-11 of the maximum may be ordered either way by rounding, so each of them is a
+    legitimate `a1` (the step is ill-conditioned in the tie-break, not in the arithmetic). -/
+def dqPick (γ α : Rat) (S A : Nat) (pa pc : Rows) (e : StepIn) (out outC : Rows) : Rows × Rows × Bool × Nat :=
   let d : DQ := ⟨ofRows pa, ofRows pc⟩
-  let dT := dqStep γ α A d true e.s e.a e.s1 e.r
+  let aT := dqArg A d true e.s1
+  let dT := dqStepAt γ α d true aT e.s e.a e.s1 e.r
   let rTa := toRows S A dT.qa
   let rTc := toRows S A dT.qc
-  if closeRows tolStep rTa out && closeRows tolStep rTc outC then (rTa, rTc, true)
+  if closeRows tolStep rTa out && closeRows tolStep rTc outC then (rTa, rTc, true, aT)
   else
-    let dF := dqStep γ α A d false e.s e.a e.s1 e.r
-    (toRows S A dF.qa, toRows S A dF.qc, false)
+    let aF := dqArg A d false e.s1
+    let mx := d.qc e.s1 aF - d.qa e.s1 aF
+    let cands := aF :: (List.range A).filter (fun x => x != aF && closeQ tolStep (d.qc e.s1 x - d.qa e.s1 x) mx)
+    let res := cands.map (fun a1 => let dF := dqStepAt γ α d false a1 e.s e.a e.s1 e.r; (toRows S A dF.qa, toRows S A dF.qc, false, a1))
+    match res.find? (fun r => closeRows tolStep r.1 out && closeRows tolStep r.2.1 outC) with
+    | some r => r
+    | none => res.headD (rTa, rTc, true, aT)
 
 /-- `td L S A γ rmin rmax mode [π] init [initC] n steps…` ; mode 0 = zero start + bounds clause,
     1 = start at Q* of a deterministic MDP + fixed-point clause, 2 = arbitrary start (correspondence only) -/
@@ -111,16 +120,16 @@ def td : P String := do
     if !(inRange S A e) then P.fail
     let qp := ofRows prev
     -- (L2b) one model step from the implementation's own previous state
-    let (m1, m1C, coin) :=
+    let (m1, m1C, coin, a1) :=
       if isDQ then dqPick γ e.α S A prev prevC e out outC
-      else (toRows S A (stepTD L γ A π qp e), [], true)
+      else (toRows S A (stepTD L γ A π qp e), [], true, 0)
     let bad := !(closeRows tolStep m1 out) || (isDQ && !(closeRows tolStep m1C outC))
     v := v.diffIf bad s!"{comp} step {k} from-impl-state model={showRows m1} impl={showRows out}"
     if eqRows m1 out && (!isDQ || eqRows m1C outC) then exact := exact + 1
     -- pure model trajectory
     let (mm, mmC) :=
       if isDQ then
-        let d := dqStep γ e.α A ⟨ofRows mdl, ofRows mdlC⟩ coin e.s e.a e.s1 e.r
+        let d := dqStepAt γ e.α ⟨ofRows mdl, ofRows mdlC⟩ coin a1 e.s e.a e.s1 e.r
         (toRows S A d.qa, toRows S A d.qc)
       else (toRows S A (stepTD L γ A π (ofRows mdl) e), [])
     v := v.diffIf (!(closeRows tolRun mm out) || (isDQ && !(closeRows tolRun mmC outC)))
